@@ -52,8 +52,9 @@ def gen(rng: random.Random, budget: int, nv: bool, length: int, two_qubit=True) 
             live += hs
             ev.append({"a": "keep", "role": rng.choice(["create", "recv"]), "hs": hs})
         elif p < 0.92 and free >= 1:
-            form = "sequential" if nv else rng.choice(["sequential", "context"])
-            n = rng.choice([1, 2, 3]) if form == "sequential" else rng.randrange(1, min(free, 3) + 1)
+            # (NV contexts of more than one pair are a recorded finding: one pair there)
+            form = rng.choice(["sequential", "context"]) if nv else rng.choice(["sequential", "context", "context-sequential"])
+            n = (1 if nv else rng.randrange(1, min(free, 3) + 1)) if form == "context" else rng.choice([1, 2, 3])
             ev.append({"a": "seq", "role": rng.choice(["create", "recv"]), "n": n, "form": form})
         else:
             ev.append({"a": "flush"})
@@ -105,13 +106,19 @@ def directed() -> List[Dict[str, Any]]:
     # the body of a sequential post routine / context works on another live qubit before AND after the pair's qubit
     for nv, tr in ((False, False), (True, False), (True, True)):
         for role in ("create", "recv"):
-            for form in ("sequential", "context"):
-                if nv and form == "context":
-                    continue            # (NV contexts are a recorded finding of their own)
+            for form in ("sequential", "context", "context-sequential"):
                 for n in (1, 2):
+                    if nv and form != "sequential" and n > 1:
+                        continue            # (NV contexts of more than one pair are a recorded finding of their own)
                     D.append({"budget": 3, "nv": nv, "transpile": tr, "events": [
                         {"a": "new", "h": 1}, {"a": "seq", "role": role, "n": n, "form": form, "with": 1}, {"a": "flush"},
                         {"a": "gate", "h": 1}, {"a": "measD", "h": 1}, {"a": "flush"}]})
+    # contexts that generate their pairs one after the other: more pairs than free slots
+    for role in ("create", "recv"):
+        D.append({"budget": 3, "nv": False, "transpile": False, "events": [
+            {"a": "new", "h": 1}, {"a": "seq", "role": role, "n": 3, "form": "context-sequential"}, {"a": "flush"}, {"a": "measD", "h": 1}, {"a": "flush"}]})
+        D.append({"budget": 2, "nv": False, "transpile": False, "events": [
+            {"a": "seq", "role": role, "n": 3, "form": "context-sequential", "with": 0}, {"a": "flush"}, {"a": "new", "h": 1}, {"a": "measD", "h": 1}, {"a": "flush"}]})
     # a self-contained subroutine (keep one pair, use it, measure it) compiled once and run twice
     for nv, tr in ((False, False), (True, False)):
         for role in ("create", "recv"):
@@ -226,7 +233,8 @@ def _run(item):
                     if not rejected_ok:
                         raise RuntimeError("rig: the second measurement of the pair's qubit was not refused")
                 else:
-                    with (sock.create_context(n) if e["role"] == "create" else sock.recv_context(n)) as (q, pair):
+                    kw_ = dict(sequential=True) if e["form"] == "context-sequential" else {}
+                    with (sock.create_context(n, **kw_) if e["role"] == "create" else sock.recv_context(n, **kw_)) as (q, pair):
                         if by is not None:
                             by.X()
                         q.H()
